@@ -7,5 +7,26 @@ CHECKS = {
         "technique": "Lean 4 proof (induction + potential-function invariant) + differential correspondence",
     },
 }
+    "C02": {
+        "text": "Lean theorems dispatch_sound / dispatch_complete / no_503_while_healthy over the model of ServeHTTP's dispatch path, for all five strategies and every pool, health, rotation, gauge and current-weight state; tied to the code by a differential run of the real LoadBalancer (scripted in-process transports, virtual clock) against the compiled model, with an independent window-bookkeeping oracle on the implementation's answers and a small-scope sweep of strategies x pool sizes x ejected subsets.",
+        "note": "Trusted: Lean kernel; overlay clock rewrite; harness/generators. Guards stated in the theorem: no wrap of the 64-bit RR counter within one turn, gauges < MaxInt32. Dispatch is modelled sequentially; concurrent ejection racing a dispatch is out of this check.",
+        "technique": "Lean 4 proof (per-strategy choice lemmas by induction) + differential correspondence + trace oracle",
+    },
+    "C06": {
+        "text": "Lean theorems for all 2^64 keys and all pool sizes (jump_range, jump_monotone, no int64 overflow), affinity as a function of (address key, eligible list) only, source-port independence via a byte-level model of net.SplitHostPort, validity of the chosen index and append_minimal for every pool/health state; tied to the code by value-for-value comparison of jumpHash/FNV-1a with the Go functions and by differential + metamorphic runs of the real hash strategies.",
+        "note": "Trusted: Lean kernel; hash/fnv and net.SplitHostPort are modelled by hand and validated by the differential run only.",
+        "technique": "Lean 4 proof (induction on the jump loop; byte-string lemmas) + differential correspondence",
+    },
+    "C07": {
+        "text": "Lean theorems over a begin/end model of the breaker (every overlap of concurrent requests at critical-section granularity): trips after failure_threshold failures without a gap > interval, rejects everything while open, at most max_requests trials per half-open episode for any number of concurrent callers, closes only after success_threshold trial successes, any trial failure re-opens, stale completions ignored; tied to circuitbreaker.go by a differential run with overlapping Execute calls under the virtual clock and an independent oracle on Execute results/State()/Counts().",
+        "note": "Trusted: Lean kernel; sync.RWMutex gives atomicity of each critical section (the model's step granularity); uint32 counters do not wrap. System-level wiring (which proxied outcomes count as failures) is checked by the C13/C03 correspondence of the LB model.",
+        "technique": "Lean 4 proof (invariant/potential over event histories) + differential correspondence",
+    },
+    "C08": {
+        "text": "Lean theorem never_stuck: for every configuration with 1 <= success_threshold <= max_requests and every state reachable by any history (inductive invariant inv_run), once the timeout has elapsed success_threshold successful requests are all admitted and leave the breaker closed; accepted_config_live shows validation+defaulting yield such configurations. Tied to the code by running the recovery script on the real breaker from every generated history.",
+        "note": "Trusted: Lean kernel; the validator relation is exercised by the C18 check; non-blocking notifications rely on the callback running after unlock (harness callback re-enters the breaker, so a regression hangs and is reported).",
+        "technique": "Lean 4 proof (inductive invariant + measure argument) + differential correspondence",
+    },
+}
 
 NOT_APPLICABLE = {}
